@@ -47,6 +47,15 @@ mod sys {
         feature = "tzdb-concatenated"
     ))]
     pub(crate) fn monotonic_time() -> Option<std::time::Instant> {
+        // Verification hook: a monotonic clock whose "elapsed time" can be
+        // advanced by the harness, so that cache expiry is an event instead
+        // of a five minute wait. Compiled out unless `--cfg jiff_verif`.
+        #[cfg(jiff_verif)]
+        {
+            return Some(
+                std::time::Instant::now() + crate::verif_monotonic_offset(),
+            );
+        }
         // Same reasoning as above, but we return `None` instead of panicking,
         // because Jiff can deal with environments that don't provide
         // monotonic time.
